@@ -4,7 +4,7 @@
    id lists are comma separated, state sets are separated by semicolons; the table lists the
    verdicts of the real auth rules for (event, provider contents) pairs, one per line:
    event id, a bar, the sorted provider ids, a bar, 1 or 0. *)
-From Verif Require Import Lib.Bytes StateRes.Event StateRes.Kahn StateRes.V2 StateRes.V1 StateRes.Entry StateRes.V2Spec StateRes.V1Spec StateRes.Wf.
+From Verif Require Import Lib.Bytes StateRes.Event StateRes.Kahn StateRes.V2 StateRes.V1 StateRes.Entry StateRes.V2Spec StateRes.V2SpecResolve StateRes.V1Spec StateRes.Wf.
 From Verif Require Import Json.Ast Json.Parse Auth.Types Auth.Versions Auth.Abs Auth.Decide Auth.Model.
 Open Scope N_scope.
 
@@ -415,6 +415,63 @@ Definition prop_unconflicted_kept (args : list bytes) : bytes :=
   | _ => bs "badargs"
   end.
 
+
+(* ---------- the whole of v2 / v2.1 from the specification-side definitions ----------
+   [ver; universe; sets; auth; rejected; table; event JSONs; observable] *)
+Definition prop_v2 (args : list bytes) : bytes :=
+  match args with
+  | [ver; u; sets; auth; rej; tbl; _; obs] =>
+      if is_v1 ver then bs "ok"
+      else if negb (bytes_eqb (prop_unconflicted_kept args) (bs "ok")) then prop_unconflicted_kept args
+      else
+        let un := decode_universe u in
+        let ss := parse_sets un sets in
+        let authl := lookup_ids un (parse_ids auth) in
+        if negb (spec_resolve_applies ss authl) then bs "ok"
+        else match ss, authl with
+             | [], _ => bs "ok"
+             | _, _ =>
+                 let t := parse_table tbl in
+                 let rejl := parse_ids rej in
+                 let want := out_sorted (spec_resolve_v2 (allowed_of_table t) (fun k => mem_bytes k rejl)
+                                                         (priv_of_version ver) GenConsts.gen_creator_power_level users_default0
+                                                         (is_v21 ver) ss authl) in
+                 if bytes_eqb want obs then bs "ok" else bs "FAIL the specification resolves to " ++ want
+             end
+  | _ => bs "badargs"
+  end.
+
+(* ---------- ResolveStateConflictsV2 called directly (deprecated driver) ----------
+   [ver; universe; conflicted; unconflicted; auth; rejected; table; event JSONs] *)
+Definition run_resolve_v2_direct (args : list bytes) : bytes :=
+  match args with
+  | [ver; u; cf; uc; auth; rej; tbl; _] =>
+      let un := decode_universe u in
+      let t := parse_table tbl in
+      let rejl := parse_ids rej in
+      let r := resolve_v2_old (allowed_of_table t) (fun k => mem_bytes k rejl) idE idP (priv_of_version ver)
+                              GenConsts.gen_creator_power_level users_default0
+                              (lookup_ids un (parse_ids cf)) (lookup_ids un (parse_ids uc)) (lookup_ids un (parse_ids auth)) in
+      answer t (Some (result_events r, r_log r))
+  | _ => bs "badargs"
+  end.
+
+(* every event handed over as unconflicted (one per key) is in the result *)
+Definition prop_direct_kept (args : list bytes) : bytes :=
+  match args with
+  | [_; u; _; uc; auth; _; _; _; obs] =>
+      let un := decode_universe u in
+      let unc := lookup_ids un (parse_ids uc) in
+      let authl := lookup_ids un (parse_ids auth) in
+      let got := parse_ids obs in
+      if negb (existsb is_create (authl ++ unc)) then bs "ok"
+      else match filter (fun e => negb (mem_bytes (e_id e) got)) (state_events unc) with
+           | [] => bs "ok"
+           | l => bs "FAIL unconflicted events missing from the result: " ++ out_sorted l
+           end
+  | _ => bs "badargs"
+  end.
+
 Definition ops_C10 : list (bytes * (list bytes -> bytes)) :=
   [ (bs "C10.split", run_split);
     (bs "C10.authdiff_new", run_authdiff_new);
@@ -433,6 +490,9 @@ Definition ops_C10 : list (bytes * (list bytes -> bytes)) :=
     (bs "C10.prop.v1", prop_v1);
     (bs "C10.prop.v1_old", prop_v1_old);
     (bs "C10.prop.unconflicted_kept", prop_unconflicted_kept);
+    (bs "C10.prop.v2", prop_v2);
+    (bs "C10.resolve_v2_direct", run_resolve_v2_direct);
+    (bs "C10.prop.direct_kept", prop_direct_kept);
     (bs "C10.resolve_new_e2e", run_resolve_new_e2e);
     (bs "C10.resolve_old_e2e", run_resolve_old_e2e);
     (bs "C10.allowed_rows", run_allowed_rows) ].
